@@ -86,6 +86,10 @@ M = [
  ('C10-g', 'C10', 'backends/gdb_plugin/plugin.py', "        connection_id, message = self.message_extractor()\n        self.plugin.process_message(connection_id, message)\n        return self.plugin.paused()", "        connection_id, message = self.message_extractor()\n        paused = self.plugin.paused()\n        self.plugin.process_message(connection_id, message)\n        return paused", 1),
  ('C15-b', 'C15', 'backends/gdb_plugin/plugin.py', "        self.plugin.close_connection(connection_id)\n        return False", "        self.plugin.close_connection(connection_id)\n        return True", 1),
  ('C15-c', 'C15', 'backends/gdb_plugin/plugin.py', "        connection = gdb.selected_frame().read_var('connection')\n        connection_id = extract.connection_id_of(connection)\n        self.plugin.close_connection(connection_id)", "        connection = gdb.selected_frame().read_var('connection')\n        connection_id = extract.connection_id_of(connection)", 1),
+ ('C16-c', 'C16', 'core/wl/message.py', "'{:7.4f}'.format(self.timestamp)", "'{:7.3f}'.format(self.timestamp)", 1),
+ ('C16-d', 'C16', 'core/wl/message.py', "        out.show(color(timestamp_color, '{:7.4f}'.format(self.timestamp)) + ' ' + conn_name + ': ' + str(self))", "        out.show(color(timestamp_color, '{:7.4f}'.format(self.timestamp)) + ' ' + ': ' + str(self))", 1),
+ ('C14-a', 'C14', 'core/wl/object.py', "'@' + str(self.id) + number_to_letter_id(self.generation, False)", "'@' + str(self.id) + number_to_letter_id(self.generation % 26, False)", 1),
+ ('C14-b', 'C14', 'core/wl/object.py', "        if self.type:\n            return self.type", "        if self.type is not None:\n            return self.type", 0),
  ('C16-a', 'C16', 'frontends/tui/controller.py', 'if delta > 1.0:', 'if delta >= 1.0:', 1),
  ('C16-b', 'C16', 'frontends/tui/controller.py', "                ')')\n            self.last_shown_timestamp = None", "                ')')", 1),
  ('C06-a', 'C06', 'frontends/tui/controller.py', 'if self.current_connection is None or connection == self.current_connection:', 'if True:', 1),
